@@ -18,7 +18,7 @@ from common import Check, Driver, table_wire
 from props.c14 import parse_aggr
 
 PROP = "C06"
-KINDS = ("mean_cov", "ratio_ncov", "ratio_cov")
+KINDS = ("mean_cov", "ratio_ncov", "ratio_cov", "mean_ratio_cov")
 
 
 def aggs_of(tables):
